@@ -503,17 +503,28 @@ Definition diag_doc (ex : list fspec) (d : doc) : list Z :=
 (* ------------------------------------------------------------------ naming (hdl/_ir.py) *)
 (* def _add_name(assigned_names, name):
        if name in assigned_names:
-           name = f"{name}${len(assigned_names)}"
-           assert name not in assigned_names
+           index = len(assigned_names)
+           while f"{name}${index}" in assigned_names:
+               index += 1
+           name = f"{name}${index}"
        assigned_names.add(name)
        return name
-   The set is modelled by a duplicate-free list (so len() is its length); None = the assertion fails. *)
+   The set is modelled by a duplicate-free list (so len() is its length).  The while loop runs on fuel
+   |assigned| + 1; None = out of fuel, which never happens (Proofs/RtlilP.v: find_index_total). *)
 Definition dec (n : nat) : string := NilEmpty.string_of_uint (Nat.to_uint n).
 Definition gen_name (name : string) (k : nat) : string := (name ++ "$" ++ dec k)%string.
+Fixpoint find_index (fuel : nat) (assigned : list string) (name : string) (index : nat) : option nat :=
+  match fuel with
+  | O => None
+  | S f => if smem (gen_name name index) assigned then find_index f assigned name (S index)
+           else Some index
+  end.
 Definition add_name (assigned : list string) (name : string) : option (string * list string) :=
   if smem name assigned then
-    let name' := gen_name name (List.length assigned) in
-    if smem name' assigned then None else Some (name', name' :: assigned)
+    match find_index (S (List.length assigned)) assigned name (List.length assigned) with
+    | Some i => let name' := gen_name name i in Some (name', name' :: assigned)
+    | None => None
+    end
   else Some (name, name :: assigned).
 (* the loop of Design._assign_names over the names wanted in one fragment (signals, then IO ports, then
    subfragments), starting from the reserved names (top-level port names) *)
@@ -530,6 +541,3 @@ Fixpoint assign_names (assigned : list string) (wanted : list string) : option (
           end
       end
   end.
-(* a name as the user can write it for the hypothesis of the positive theorem: no `$` in it *)
-Fixpoint no_dollar (s : string) : bool :=
-  match s with EmptyString => true | String c r => negb (Ascii.eqb c "$"%char) && no_dollar r end.
